@@ -261,7 +261,15 @@ pub fn gen_jumbo(seed: u64) -> (PnmScenario, &'static str, Option<String>) {
         }
         return (PnmScenario { work: PnmWork::Foreign(f), writer: WriterCfg::plain(), disk: vec![], reader, via_path: false }, "search:jumbo", None);
     }
-    let (bw, bh) = *rng.pick(&[(65_537u32, 1u32), (1, 65_540), (70_001, 2), (300, 300), (3, 66_000), (1025, 1024)]);
+    let (bw, bh) = match rng.below(4) {
+        // a dimension beyond 16 bits
+        0 => *rng.pick(&[(65_537u32, 1u32), (1, 65_540), (70_001, 2), (3, 66_000), (65_536, 2)]),
+        // rows wider than any plausible row buffer, more than one of them
+        1 => (rng.range(4097, 20_000) as u32, rng.range(2, 5) as u32),
+        // many pixels: 2^18 .. 2^20 and a little beyond
+        2 => (rng.range(500, 1100) as u32, rng.range(500, 1100) as u32),
+        _ => *rng.pick(&[(1025u32, 1024u32), (300, 300), (4096, 3), (8192, 2), (256, 256), (1024, 1024)]),
+    };
     let li = LibImage { bw, bh, pixels: Pix::Seeded(rng.u64()), view: if rng.chance(1, 2) { View::Ref } else { View::Slice(RectU { x: 0, y: 0, w: bw, h: bh }) } };
     let len = p6_len(bw, bh);
     let mut writer = gen_writer_benign(&mut rng, len);
@@ -523,8 +531,17 @@ pub fn run(scn: &PnmScenario, record: bool) -> RunResult {
                     rr.oracle("T", false);
                     rr.violate(Violation::new("T", format!("write-{}", c.class()), format!("write_ppm of a {w}x{h} image {}", c.detail())));
                 }
+                Ok((WriteRes::NoImage(c), _)) if w > 0 && h > 0 => {
+                    // a non-empty, in-bounds sub-view is what C13 says can be written
+                    rr.oracle("T", false);
+                    rr.violate(Violation::new(
+                        "T",
+                        format!("view-{}", c.class()),
+                        format!("forming the non-empty, in-bounds {w}x{h} sub-view to be written {}", c.detail()),
+                    ));
+                }
                 Ok((WriteRes::NoImage(_), _)) => {
-                    rr.probe("view not constructible (Buf2/Slice2 constructor refused; not judged here)");
+                    rr.probe("empty view not constructible (Buf2/Slice2 constructor refused; not judged here)");
                 }
                 Ok((WriteRes::Done(wres), flush)) => {
                     rr.oracle("T", true);
